@@ -250,6 +250,23 @@ def run_mode_argv(res, rnd):
                          sig={'entry': 'run-argv'}, theorem='C19_first_marker_exact')
         else:
             res.nontriv(('run', tuple(words)))
+    # the program word itself is forwarded verbatim too: a bare name found through PATH stays that name (it is the program's argv[0])
+    import shutil
+    for prog, script in (('sh', 'printf %s "$0" > "$WDV_OUT"'), ('sh', 'printf "%s|%s" "$0" "$1" > "$WDV_OUT"')):
+        if not shutil.which(prog):
+            continue
+        if os.path.exists(outp):
+            os.remove(outp)
+        words = ['-c', script] + (['-r'] if '$1' in script else [])
+        p = subprocess.run([sys.executable, '-B', os.path.join(common.REPO, 'main.py'), rnd.choice(['-r', '--run', '-Cr']), prog] + words,
+                           stdin=subprocess.DEVNULL, capture_output=True, text=True, env=dict(os.environ, WDV_OUT=outp, PYTHONPATH=common.REPO), timeout=60)
+        res.evaluations += 1
+        got = open(outp).read() if os.path.exists(outp) else None
+        # `sh -c script [name]`: $0 is the name given after the script if any, otherwise the name sh itself was started under
+        want = '-r|' if '$1' in script else prog
+        if got != want:
+            res.disagree('the program word after -r is not handed on verbatim (the program sees another argv[0])', [prog] + words, want, [got, p.stderr[-200:]],
+                         sig={'entry': 'run-argv0'}, theorem='C13_spawn_transparent / C19_first_marker_exact')
     for f in (helper, outp):
         if os.path.exists(f):
             os.remove(f)
